@@ -4,7 +4,7 @@ import "verifharness/vt"
 
 func init() {
 	vt.PropertyID = "C16"
-	vt.Register("syscalls", 0.05, genSysCase, checkSysCase)
+	vt.Register("syscalls", 0.08, genSysCase, checkSysCase)
 	vt.Register("natives", 0.15, genNatCase, checkNatCase)
 	vt.Register("chains", 1.0, genChainCase, checkChainCase)
 	vt.Register("safe", 0.2, genSafeCase, checkSafeCase)
